@@ -843,4 +843,20 @@ def method_call(self, st, base, attr, args, node):
         s.env[tgt.id] = Val(new, base.ty)
         yield s, Val(z3.IntVal(0), "none")
         return
+    if isinstance(base.ty, tuple) and base.ty[0] == "seq" and attr == "extend":
+        tgt = node.func.value
+        if not isinstance(tgt, ast.Name):
+            raise Unsupported("extend on non-name sequence")
+        s = st.fork()
+        other = self.seq_of(s, args[0]) if not (is_ref(args[0].ty) and args[0].ty[1].startswith("dict_")) else self.read_field(s, args[0], args[0].ty[1], "keys")
+        new = fresh_const("ext", base.t.sort())
+        k = bound_var("k", I)
+        n0, n1 = z3.Length(base.t), z3.Length(other.t)
+        s.conds.append(new == z3.Concat(base.t, other.t))
+        s.conds.append(z3.Length(new) == n0 + n1)
+        s.conds.append(z3.ForAll([k], z3.Implies(z3.And(k >= 0, k < n0), new[k] == base.t[k]), patterns=[new[k]]))
+        s.conds.append(z3.ForAll([k], z3.Implies(z3.And(k >= 0, k < n1), new[n0 + k] == other.t[k])))
+        s.env[tgt.id] = Val(new, base.ty)
+        yield s, Val(z3.IntVal(0), "none")
+        return
     raise Unsupported(f"method {attr} on {base.ty}")
